@@ -98,6 +98,12 @@ func (f *WithInputFromString) Call(s *slip.Scope, args slip.List, depth int) (re
 	args = args[1:]
 	for i := range args {
 		result = slip.EvalArg(s2, args, i, d2)
+		if _, exit := result.(*slip.ReturnResult); exit {
+			break
+		}
+		if _, exit := result.(*GoTo); exit {
+			break
+		}
 	}
 	if place != nil {
 		pos, _ := reader.Seek(0, io.SeekCurrent)
